@@ -111,7 +111,7 @@ def api_scripts(tier, rng, n=None):
             L.append(f"peek 2 {1 if wildcard else 0} {H(s)}"); L.append(f"# RX {s:x} {mi}")
         for s in ssrcs:
             traffic(s)            # creates the clones
-        start = rng.choice([0x10003, 0x10002, 0x10001, 0x10000, 4, 3, 2, 1, (1 << 32) + 2, (3 << 32) + 2, (1 << 33) + 0x10001, (1 << 40) + 1])
+        start = [0x10003, 2, 0x10001, 3, (1 << 32) + 2, 1, 0x10002, 4, 0x10000, (3 << 32) + 2, (1 << 33) + 0x10001, (1 << 40) + 1][k % 12]     # stratified: soft and hard threshold in every run
         which = 1 if wildcard else 0
         L.append(f"poke_limit 1 {which} {H(ssrcs[0])} 0 {H(start)} 0")
         # the receiver's budget may also be the smaller one, so that srtp_unprotect itself reaches the hard limit
